@@ -175,6 +175,10 @@ class C13(Prop):
             both("PauliList.__getitem__", lambda B: B.plist(ops)[1:4])
             both("PauliList.weight", lambda B: B.plist(ops).weight())
             both("Polynomial.reduce", lambda B: (B.poly(ops + ops[:2], [1, 2, 0.5, -1, 1j, -1, 0.25])).reduce())
+            both("Polynomial.reduce(tol=|c|)", lambda B: B.poly(ops[:4], [1, 2, 0.5, 3 + 4j]).reduce(1.0), tol=1)
+            both("Polynomial.reduce(tol=|c|)", lambda B: B.poly(ops[:4], [1, 2, 0.5, 3 + 4j]).reduce(0.5), tol=0.5)
+            # (|3+4i| = 5 is NOT used as a boundary: single precision computes that modulus as 5.0000005)
+            both("Polynomial.reduce(tol=0)", lambda B: (B.poly(ops[:2], [1, 1]) @ B.poly(ops[:2], [1, -1])).reduce(0.0), tol=0)
             both("Polynomial.__matmul__", lambda B: B.poly(ops[:3], [1, 2, 0.5]) @ B.poly(ops[3:], [1j, -1]))
             both("Polynomial.__add__", lambda B: B.poly(ops[:3], [1, 2, 0.5]) + B.poly(ops[2:], [1j, -1, 4]))
             both("Polynomial.trace", lambda B: (B.poly(ops[:3] + [[0] * n + [2]], [1, 2, 0.5, 3])).trace())
